@@ -1699,7 +1699,8 @@ int parse_instruction_xtensa(AsmContext *asm_context, char *instr)
               return -1;
             }
 
-            t = operands[1].value != 0 ? 4 : 0;
+            // m2 is 0, m3 is 1 (bit 6 of the instruction).
+            t = operands[1].value == 3 ? 4 : 0;
           }
 
           if (operands[0].type == OPERAND_REGISTER_AR) { s = operands[0].value; }
